@@ -407,7 +407,13 @@ func explore(t *testing.T, p *Property) {
 		if first != nil {
 			c.states = nil
 		}
+		evDir := os.Getenv("VERIF_EVENTS_DIR")
+		c.KeepLog = evDir != ""
 		err := runCase(t, p, sc, c)
+		if evDir != "" && first == nil {
+			// Debugging aid for the determinism self-test: one event log per case.
+			_ = os.WriteFile(fmt.Sprintf("%s/case-%04d.txt", evDir, out.Cases), []byte(string(raw)+"\n"+strings.Join(c.Log(), "\n")+"\n"), 0o644)
+		}
 		if first == nil {
 			out.Cases++
 			out.Ops += c.Ops
